@@ -65,9 +65,8 @@ func (core *JApiCore) collectPathVariables(d *directive.Directive) *jerr.JApiErr
 
 	parentDirective := *d.Parent
 
-	if len(core.rawPathVariables) != 0 {
-		prevParent := core.rawPathVariables[len(core.rawPathVariables)-1].parentDirective
-		if prevParent.Equal(parentDirective) {
+	for i := range core.rawPathVariables {
+		if core.rawPathVariables[i].parentDirective.Equal(parentDirective) {
 			return d.KeywordError(jerr.NotUniqueDirective)
 		}
 	}
